@@ -1,9 +1,8 @@
 SPECIFICATION Spec
 CONSTANTS
-  Universe = "GQ"
+  Depth = 3
   Part = 0
   Parts = 1
-  Known = {}
-  Tags <- TagsFromFile
-INVARIANT DemoAsIs
+INVARIANT GenInv
+INVARIANT Laws
 CHECK_DEADLOCK FALSE
